@@ -62,6 +62,16 @@ pub fn profile(name: &str) -> Option<Profile> {
             p.w_hot_slot = 3;
             p.max_pop = 40;
         }
+        "faults" => {
+            p.name = "faults";
+            p.w_fault = 60;
+            p.w_clone = 4;
+            p.w_drop_world = 2;
+            p.max_pop = 8;
+            p.full_every = 2;
+            p.iter_every = 2;
+            p.max_worlds = 3;
+        }
         "events" => {
             p.name = "events";
             p.w_clear_events = 8;
@@ -190,7 +200,7 @@ pub fn step_once<W: WorldOps>(e: &mut Engine<W>, pc: &mut ProbeCounts, small: bo
     if pop >= cap_pop {
         wc = 0;
     }
-    let weights = [wc, p.w_within, wd, p.w_destroy_stale, p.w_iter_destroy, p.w_write, p.w_clone, p.w_drop_world, p.w_clear_events, p.w_hot_slot, p.w_drain_refill, p.w_break];
+    let weights = [wc, p.w_within, wd, p.w_destroy_stale, p.w_iter_destroy, p.w_write, p.w_clone, p.w_drop_world, p.w_clear_events, p.w_hot_slot, p.w_drain_refill, p.w_break, p.w_fault];
     let op = e.rng.weighted(&weights);
     let mut touched: Vec<usize> = Vec::new();
     let mut extra_world: Option<usize> = None;
@@ -293,7 +303,10 @@ pub fn step_once<W: WorldOps>(e: &mut Engine<W>, pc: &mut ProbeCounts, small: bo
             let ai = pick_arch(e);
             e.op_drain_refill(wi, ai);
         }
-        _ => e.op_break(wi),
+        11 => e.op_break(wi),
+        _ => {
+            touched = e.op_fault(wi, pc);
+        }
     }
     if e.worlds[wi].is_none() {
         return;
